@@ -317,7 +317,11 @@ def judgeRec (kind : String) (x : Sequence) (tail : List String) : Verdict :=
     let thmDom := wfSeq x
     let c2 := identical == "true"
     let got := strictRead outL
-    let c3 := got == some (abs x)
+    -- a LOCUS line cannot carry an empty name (`nameless_class_fails`: no text is read back as a name-less record): of a
+    -- name-less record the independent reader must recover everything the record HAS, under whatever name the line carries
+    let c3 := if clsNameless x then
+                (match got with | some r => r == { abs x with locus := { (abs x).locus with name := r.locus.name } } | none => false)
+              else got == some (abs x)
     let diffs := match y with | some y => diffFields (withDefaultIndex x) y | none => ["unparsed"]
     -- `Reference.Index` is preserved when set; an unset one comes back as the position (be39eee)
     let xd := withDefaultIndex x
@@ -342,12 +346,15 @@ def judgeRec (kind : String) (x : Sequence) (tail : List String) : Verdict :=
     let kf := if anyKf && !j && c2 && c3K && (!rtDom || c4K) then
         (if clsBlankRun x then " kf:C03-blank-run-at-wrap" else "") ++ (if nameless then " kf:C03-nameless-locus" else "")
       else ""
-    -- correspondence of the writer: byte for byte; on a case that IS a known finding the model mirrors the defect,
-    -- which the property does not demand — there the text may differ (name-less: in the LOCUS line only).
-    -- Correspondence of the parser model is C03's business only where the round trip is demanded (`rtDom`).
-    let restOf (t : Str) : Str := t.dropWhile (· != '\n')
-    let textOk := outL == m || (kf != "" && (!nameless || restOf outL == restOf m))
-    let corr := textOk && m2 == m && (!rtDom || pcorr) && cacheOk
+    -- correspondence: the writer byte for byte, the parser model where the round trip is demanded (`rtDom`).
+    -- On an input of one of the two known-finding classes the model mirrors the recorded DEFECT: its bytes are not the
+    -- standard there, the property is.  So on such an input a reply that differs from the model is
+    --  * tagged (still the known finding): not a correspondence failure;
+    --  * passing (the defect was repaired): drift, reported as `skip` + DIFF with the class suffix `/kf-repaired`;
+    --  * failing somewhere else: an ordinary FAIL.
+    let corrStrict := outL == m && m2 == m && (!rtDom || pcorr) && cacheOk
+    let repaired := anyKf && j && !corrStrict
+    let corr := if kf != "" then m2 == m && cacheOk else corrStrict
     -- regression classes of the three repaired defects (evidence only; they are judged like every other case)
     let reg := (if clsLocusSearch x then "/locus-token" else "")
       ++ (if clsSubKeyword m || clsTopKeyword m then "/keyword-at-line-start" else "")
@@ -368,13 +375,13 @@ def judgeRec (kind : String) (x : Sequence) (tail : List String) : Verdict :=
               let k := firstDiff outL m
               "[model differs at " ++ toString k ++ ": impl …" ++ snippet outL k ++ "… model …" ++ snippet m k ++ "…]")
     { corr := corr,
-      judge := if layoutDom then some j else none,
+      judge := if layoutDom && !repaired then some j else none,
       cls := (if triv then "triv:" else "") ++ kind ++ "/feat" ++ sizeTag x.features.length ++ "/ref" ++ sizeTag x.metadata.references.length
              ++ "/other" ++ sizeTag x.metadata.other.length ++ (if wraps then "/wrap" else "") ++ (if cached then "/cached" else "")
              ++ (if structural then "/structural" else "") ++ (if rtDom then "/rt" else if layoutDom then "/layout-only" else "/out")
              ++ (if thmDom then "/thm" else "") ++ (if wfLayoutG x then "/lay" else "")
              ++ (if Spec.GbRoundTrip.covered x then "/pb" else "")
-             ++ (if x.sequence.length > 10000 then "/long" else "") ++ reg ++ kf,
+             ++ (if x.sequence.length > 10000 then "/long" else "") ++ reg ++ (if repaired then "/kf-repaired" else "") ++ kf,
       detail := why }
   | _ => { corr := false, judge := none, cls := kind ++ "/bad-reply", detail := "bad reply" }
 
